@@ -161,7 +161,9 @@ func verifC02qrFamily(rmin, rmax int) {
 		for _, x := range vs[i] {
 			vv += x * x
 		}
-		verifAssert(verifOr(tau[i] == 0, tau[i]*vv == 2), who+": every reflector is orthogonal (tau == 0 or tau*|v|^2 == 2)")
+		if tau[i] != 0 {
+			verifAssertEqF(tau[i]*vv, 2, who+": every reflector is orthogonal (tau == 0 or tau*|v|^2 == 2)")
+		}
 	}
 	// t(i,j): the triangular / trapezoidal factor as an m x n matrix.
 	t := func(i, j int) float64 {
